@@ -597,6 +597,7 @@ def run(ctx: Ctx) -> None:
         cases.append((gen_case(rng, maxlen), 'random'))
     oracle = Oracle()
     seen_fail: set = set()
+    shrinks = [0]
     batch: list[tuple[dict, dict, Any, str]] = []
 
     def flush() -> None:
@@ -657,8 +658,9 @@ def run(ctx: Ctx) -> None:
                 flush()
         for fail in oracle.judge(case, impl, opt):
             ctx.count('oracle-fail:' + fail['kind'])
-            if len(seen_fail) >= 12:
+            if len(seen_fail) >= 12 or shrinks[0] >= 20:
                 continue
+            shrinks[0] += 1
             canon, small = canon_failure(case, fail, oracle)
             key = json.dumps([fail['kind'], canon], sort_keys=True)
             if key in seen_fail:
